@@ -336,6 +336,13 @@ fn size(env: &TypeEnv, t: &Type) -> Option<usize> {
     size_helper(env, &mut seen, t)
 }
 
+/// Verification hook: the size estimate that steers the choice between alternatives.
+#[allow(unexpected_cfgs)]
+#[cfg(candid_verif)]
+pub fn verif_size(env: &TypeEnv, t: &Type) -> Option<usize> {
+    size(env, t)
+}
+
 fn choose_range<T: Int>(u: &mut Unstructured, ranges: &[std::ops::RangeInclusive<T>]) -> Result<T> {
     let range = u.choose(ranges)?.clone();
     Ok(u.int_in_range(range)?)
